@@ -1959,11 +1959,18 @@ fn execute_with_progress(desc: &RunDesc, cell: Option<Arc<AtomicU64>>) -> Outcom
         let settings = desc.settings.clone();
         let ops = v.ops.clone();
         let c = cell.clone();
+        // H5: ONE simulated process converts the same history again and again, each
+        // time with a brand new TypeSpace; its last conversion is the variant
+        let repeats = if v.relation == "H5" { 40 } else { 1 };
         let var = hashseed::run_simulated_process(v.hash_key, v.decoy, move || {
             MODEL_OFF.with(|v| v.set(model_off));
             TRACE_PROGRESS.with(|t| t.set(std::env::var("VERIF_TRACE_PROGRESS").is_ok()));
             PROGRESS.with(|p| *p.borrow_mut() = c);
-            run_ops_variant(&settings, &ops, faults)
+            let mut last = run_ops_variant(&settings, &ops, faults);
+            for _ in 1..repeats {
+                last = run_ops_variant(&settings, &ops, faults);
+            }
+            last
         });
         let var = match var {
             Ok(o) => o,
@@ -1986,7 +1993,20 @@ fn execute_with_progress(desc: &RunDesc, cell: Option<Arc<AtomicU64>>) -> Outcom
         if base.clean && base.violations.is_empty() {
             match (&base.final_output, &var.final_output) {
                 (Some(a), Some(b)) => {
-                    if v.relation == "H4" {
+                    if v.relation == "H5" {
+                        if a != b {
+                            base.violations.push(Violation {
+                                invariant: "H5".into(),
+                                key: "H5-diff:bytes".into(),
+                                step,
+                                observed: format!(
+                                    "the 40th conversion of the same history in one process differs from the first conversion in a fresh process ({})",
+                                    compare_outputs(a, b).unwrap_or_else(|| "order/doc only".into())
+                                ),
+                                expected: "the output depends only on the settings and the schema, not on what the process converted before".into(),
+                            });
+                        }
+                    } else if v.relation == "H4" {
                         if a != b {
                             base.violations.push(Violation {
                                 invariant: "H4".into(),
